@@ -179,18 +179,19 @@ pub fn rand_publish_props(rng: &mut Rng) -> (Vec<Prop>, bool) {
                 ascii = v == 1;
                 Prop::PayloadFormat(v)
             }
-            0x02 => Prop::MessageExpiry(*rng.pick(&[0u32, 1, 60, u32::MAX])),
-            0x03 => Prop::ContentType(rand_string(rng, 10)),
+            0x02 => Prop::MessageExpiry(*rng.pick(&[0u32, 1, 60, 255, 256, 65535, 65536, 0x7fff_ffff, 0x8000_0000, u32::MAX])),
+            0x03 => Prop::ContentType(if rng.chance(1, 10) { String::new() } else if rng.chance(1, 12) { "c".repeat(*rng.pick(&[127usize, 128, 129])) } else { rand_string(rng, 10) }),
             0x08 => Prop::ResponseTopic(rand_topic(rng, 10)),
             _ => {
-                let n = rng.below(9);
+                let n = if rng.chance(1, 12) { *rng.pick(&[127usize, 128, 255, 256]) } else { rng.below(9) };
                 Prop::CorrelationData(rng.bytes(n))
             }
         });
     }
     for _ in 0..rng.below(3) {
         let at = rng.below(props.len() + 1);
-        props.insert(at, Prop::UserProperty(rand_string(rng, 5), rand_string(rng, 6)));
+        let (k, v) = if rng.chance(1, 10) { (String::new(), String::new()) } else { (rand_string(rng, 5), rand_string(rng, 6)) };
+        props.insert(at, Prop::UserProperty(k, v));
     }
     (props, ascii)
 }
@@ -200,7 +201,7 @@ pub fn rand_server_publish_props(rng: &mut Rng) -> (Vec<Prop>, bool) {
     for _ in 0..rng.below(3) {
         if rng.chance(1, 2) {
             let at = rng.below(p.len() + 1);
-            p.insert(at, Prop::SubscriptionId(*rng.pick(&[1u32, 127, 128, 16384, 268_435_455])));
+            p.insert(at, Prop::SubscriptionId(*rng.pick(&[1u32, 63, 64, 127, 128, 16383, 16384, 2_097_151, 2_097_152, 268_435_455])));
         }
     }
     (p, ascii)
@@ -453,7 +454,7 @@ impl Gen {
         let mut props = Vec::new();
         if rng.chance(self.p.props_pct, 100) {
             if rng.chance(1, 2) {
-                props.push(Prop::SubscriptionId(*rng.pick(&[1u32, 127, 128, 268_435_455])));
+                props.push(Prop::SubscriptionId(*rng.pick(&[1u32, 63, 64, 127, 128, 16383, 16384, 2_097_151, 2_097_152, 268_435_455])));
             }
             for _ in 0..rng.below(3) {
                 props.push(Prop::UserProperty(rand_string(rng, 4), rand_string(rng, 4)));
